@@ -383,4 +383,59 @@ theorem map_transpose2 (f : Rat → Rat) (hf : f 0 = 0) (H W : Nat) (a : Array R
   rw [get_map f hf, get_transpose2 _ hq', get_transpose2 _ hq']
   unfold px; rw [get_map f hf]
 
+
+/-! ## vocabulary of the statements: zero extension, edge replication, parameters in force -/
+
+/-- a line extended by zeros, indexed by integers -/
+def extZ (n : Nat) (g : Nat → Rat) (z : Int) : Rat := if 0 ≤ z ∧ z < n then g z.toNat else 0
+
+/-- pixel `(y, x)` of the `H × W` image `img`, **zero beyond the border** -/
+def pxZ (H W : Nat) (img : Array Rat) (y x : Int) : Rat :=
+  extZ H (fun t => extZ W (fun u => px W img t u) x) y
+
+/-- index clamped into `0 … n-1` -/
+def clampI (n : Nat) (z : Int) : Nat := min (n - 1) z.toNat
+
+/-- pixel `(y, x)` of the `H × W` image `img`, **edge values repeated** -/
+def pxC (H W : Nat) (img : Array Rat) (y x : Int) : Rat := px W img (clampI H y) (clampI W x)
+
+theorem sample_corr (w : Array Rat) (n i j : Nat) (g : Nat → Rat) :
+    sample g ((corr w).src n i j) = extZ n g ((i : Int) + (j : Int) - ((w.size / 2 : Nat) : Int)) := by
+  simp only [corr, extZ]
+  by_cases h : w.size / 2 ≤ i + j ∧ i + j - w.size / 2 < n
+  · rw [if_pos h, if_pos (by omega)]
+    simp only [sample]
+    congr 1; omega
+  · rw [if_neg h, if_neg (by omega)]
+    rfl
+
+theorem sample_unif (m n i j : Nat) (g : Nat → Rat) :
+    sample g ((unif m).src n i j) = g (clampI n ((i : Int) + (j : Int) - ((m / 2 : Nat) : Int))) := by
+  simp only [unif, sample, clampI]
+  congr 1; omega
+
+/-- the kernel in force on an axis: the given one if `σ > 0`, otherwise the axis is skipped, which
+    is the same as the one-tap kernel `(1)` (a Gaussian of width 0) -/
+def effKernel (s : Rat) (k : Array Rat) : Array Rat := if s > 0 then k else #[1]
+
+/-- the box side in force on an axis: `size` if `> 1`, otherwise the axis is skipped (side 1) -/
+def effSize (l : Int) : Nat := if l > 1 then l.toNat else 1
+
+theorem lowFilt_apply (s : Rat) (k : Array Rat) {n i : Nat} (hi : i < n) (g : Nat → Rat) :
+    (lowFilt s k).apply n i g = (corr (effKernel s k)).apply n i g := by
+  unfold lowFilt effKernel
+  split
+  · rfl
+  · rw [apply_skip]
+    simp [Filt.apply, corr, sumTo, sample, TrackpyV.Bandpass.get, hi]
+
+theorem boxFilt_apply (l : Int) {n i : Nat} (hi : i < n) (g : Nat → Rat) :
+    (boxFilt l).apply n i g = (unif (effSize l)).apply n i g := by
+  unfold boxFilt effSize
+  split
+  · rfl
+  · rw [apply_skip]
+    have : min (n - 1) i = i := by omega
+    simp [Filt.apply, unif, sumTo, sample, this]
+
 end TrackpyV.Bandpass
